@@ -110,7 +110,8 @@ def check_stream(ctx, S, DEF, cfg, stream):
         bad('receiver_completion_length', 'a frame did not complete exactly at flen(msg[3], msg[5])',
             command=c, length_byte=l, expected=n, outcomes=[t for t, _ in outs][-4:])
     # 4. the probe is framed and answered as on a fresh parser
-    keys = [H.one(k) for k in system.slaves]
+    bro = [ord(c) for c in DEF.SLAVE_ADDR_BROADCAST]
+    keys = [k for k in (H.one(k) for k in system.slaves) if k not in bro]
     if keys:
         probe = H.build(DEF, 'GET_FRAME', False, keys[0], 9, 3)
         outs = H.feed(system, probe)
